@@ -34,6 +34,7 @@ type ConstFuncParamAnnotator struct {
 var (
 	_ ast.Annotator          = (*ConstFuncParamAnnotator)(nil)
 	_ ast.FuncDeclVisitor    = (*ConstFuncParamAnnotator)(nil)
+	_ ast.FuncDefVisitor     = (*ConstFuncParamAnnotator)(nil)
 	_ ast.FuncCallVisitor    = (*ConstFuncParamAnnotator)(nil)
 	_ ast.AssignStmtVisitor  = (*ConstFuncParamAnnotator)(nil)
 	_ ast.ConditionalVisitor = (*ConstFuncParamAnnotator)(nil)
@@ -41,7 +42,7 @@ var (
 
 func (a *ConstFuncParamAnnotator) ShouldVisit(node ast.Node) bool {
 	switch node.(type) {
-	case *ast.FuncDecl, *ast.DeclStmt:
+	case *ast.FuncDecl, *ast.FuncDef, *ast.DeclStmt:
 		return true
 	default:
 		return a.currentDecl != nil
@@ -98,6 +99,12 @@ func (a *ConstFuncParamAnnotator) VisitFuncDecl(decl *ast.FuncDecl) ast.VisitRes
 	a.currentDecl = decl
 
 	return ast.VisitRecurse
+}
+
+// the body of a forward declared function is analysed for the parameters of its declaration
+// (and not for those of whichever function was declared last)
+func (a *ConstFuncParamAnnotator) VisitFuncDef(def *ast.FuncDef) ast.VisitResult {
+	return a.VisitFuncDecl(def.Func)
 }
 
 func (a *ConstFuncParamAnnotator) VisitFuncCall(call *ast.FuncCall) ast.VisitResult {
